@@ -657,5 +657,6 @@ pub fn run(ctx: &mut Ctx) -> Result<(), String> {
         rt.block_on(tokio::task::unconstrained(bad_block(ctx, &mut rng, &sk, bad)));
     }
     let _ = Transaction(vec![]);
+    crate::props::cluster_props::run_c13_nodes(ctx, 16, 320);
     Ok(())
 }
